@@ -23,7 +23,7 @@ TIERS = {"quick": dict(cases=900, shards=8, case_timeout=300, shard_timeout=1500
 FLOORS = {"quick": {"direct_values_checked": 1200, "mixed_state_values_checked": 600, "algebra_checks": 1000,
                     "run_values_recomputed": 800, "result_time_sets_checked": 400,
                     "off_grid_times_with_full_default": 20,
-                    "call_time_sets_checked_long_emulations": 20},
+                    "call_time_sets_checked_long_emulations": 20, "runs_with_stochastic_noise": 10},
           "thorough": {"direct_values_checked": 20000, "off_grid_times_with_full_default": 300}}
 EIG = {2: [("r", "g"), ("g", "h"), ("u", "d")], 3: [("r", "g", "h")], 4: [("r", "g", "h", "x")]}
 ONE = {("r", "g"): "r", ("g", "h"): "h", ("u", "d"): "d"}
@@ -238,11 +238,21 @@ def w_run(ctx, rng, idx):
                                            round(rng.uniform(0, 6), 3)), "ch")
         if rng.random() < 0.3:
             seq.delay(gen.pick(rng, [16, 60]), "ch")
-    noise = gen.pick(rng, [None, None, "dephasing", "relaxation", "depolarizing"])
+    noise = gen.pick(rng, [None, None, "dephasing", "relaxation", "depolarizing", "doppler", "amplitude"])
     if noise == "relaxation" and basis != "ground-rydberg":
         noise = "dephasing"
-    nm = {None: None, "dephasing": pulser.NoiseModel(dephasing_rate=0.8, hyperfine_dephasing_rate=0.3),
-          "relaxation": pulser.NoiseModel(relaxation_rate=1.0), "depolarizing": pulser.NoiseModel(depolarizing_rate=0.7)}[noise]
+    if noise in ("doppler", "amplitude") and (basis != "ground-rydberg" or modulated):
+        noise = "depolarizing"
+    # (doppler / amplitude: the backend averages several randomly perturbed runs; the observables are still defined
+    #  with the sequence's own Hamiltonian on the averaged state)
+    nm = {None: None, "dephasing": lambda: pulser.NoiseModel(dephasing_rate=0.8, hyperfine_dephasing_rate=0.3),
+          "relaxation": lambda: pulser.NoiseModel(relaxation_rate=1.0),
+          "depolarizing": lambda: pulser.NoiseModel(depolarizing_rate=0.7),
+          "doppler": lambda: pulser.NoiseModel(temperature=300.0, runs=4, samples_per_run=1),
+          "amplitude": lambda: pulser.NoiseModel(amp_sigma=0.2, runs=4, samples_per_run=1)}[noise]
+    nm = nm() if nm is not None else None
+    if noise in ("doppler", "amplitude"):
+        ctx.count("runs_with_stochastic_noise")
     pool = [0.0, 0.1, 0.25, 0.5, 0.77, 1.0, 0.1234, 0.6180339887]  # the last two fall between the nanoseconds of the grid
     defaults = gen.pick(rng, [[1.0], [0.5, 1.0], [0.0, 0.25, 1.0], "Full" if rng.random() < 0.3 else [0.1, 0.77]])
     own = sorted(rng.sample(pool, rng.randint(1, 3)))
